@@ -625,6 +625,111 @@ def rule_r8(prog, res) -> None:
     res.ok("C02.R8", res.site(sip), f"on all {n_paths} paths with centres given, the group key is assign_patch_centers({cen}, …) (also when an id column exists)")
 
 
+def _pieces_of(e):
+    """strip element / enumerate / subscript wrappers from an expression that denotes one piece of a divided chunk"""
+    from .. import symx
+
+    for _ in range(8):
+        e = symx.strip_wrappers(e, (symx.ELEM, symx.LOOP))
+        if isinstance(e, ast.Subscript) and not isinstance(e.slice, ast.Slice):
+            e = e.value
+        elif isinstance(e, ast.Call) and isinstance(e.func, ast.Name) and e.func.id in ("enumerate", "list", "tuple", "iter") and e.args:
+            e = e.args[0]
+        else:
+            break
+    return e
+
+
+def _tiling_verdict(pieces) -> tuple[bool | None, str]:
+    """(True, why) when the expression provably partitions its array, (False, why) when it provably covers only a
+    part of it for some lengths, (None, why) when the idiom is not recognised"""
+    from ..norm import NotAffine, affine, affine_eq, fmt_affine
+
+    if isinstance(pieces, ast.Call) and (dotted(pieces.func) or "").split(".")[-1] == "array_split" and len(pieces.args) >= 2:
+        return True, f"numpy.array_split({unparse(pieces.args[0])[:30]}, n) partitions its input for every length"
+    if isinstance(pieces, (ast.ListComp, ast.GeneratorExp)) and len(pieces.generators) == 1 and not pieces.generators[0].ifs:
+        g = pieces.generators[0]
+        el = pieces.elt
+        if isinstance(g.target, ast.Name) and isinstance(g.iter, ast.Call) and isinstance(g.iter.func, ast.Name) and g.iter.func.id == "range" and len(g.iter.args) == 1 and isinstance(el, ast.Subscript) and isinstance(el.slice, ast.Slice) and el.slice.lower is not None and el.slice.upper is not None and el.slice.step is None:
+            i, n = g.target.id, unparse(g.iter.args[0])
+            # bounds are products i*step: affine() keeps them as atoms; compare textually through substitution i -> i+1
+            import copy
+
+            class Sub(ast.NodeTransformer):
+                def __init__(self, val):
+                    self.val = val
+
+                def visit_Name(self, node):
+                    return copy.deepcopy(self.val) if node.id == i else node
+
+            nxt_lo = Sub(ast.BinOp(left=ast.Name(id=i, ctx=ast.Load()), op=ast.Add(), right=ast.Constant(value=1))).visit(copy.deepcopy(el.slice.lower))
+            consecutive = unparse(nxt_lo).replace(" ", "") in (unparse(el.slice.upper).replace(" ", ""), "(" + unparse(el.slice.upper).replace(" ", "") + ")")
+            first = Sub(ast.Constant(value=0)).visit(copy.deepcopy(el.slice.lower))
+            def is_zero(x) -> bool:
+                if isinstance(x, ast.Constant):
+                    return x.value == 0
+                if isinstance(x, ast.BinOp) and isinstance(x.op, ast.Mult):
+                    return is_zero(x.left) or is_zero(x.right)
+                if isinstance(x, ast.BinOp) and isinstance(x.op, ast.Add):
+                    return is_zero(x.left) and is_zero(x.right)
+                return False
+
+            starts_at_zero = is_zero(first)
+            if consecutive and starts_at_zero:
+                return False, f"the pieces {unparse(el)[:50]} for {i} in range({n}) are consecutive and end at {n} times the step: the last len % {n} records belong to no piece"
+        return None, "comprehension of pieces not recognised"
+    return None, f"pieces are produced by {unparse(pieces)[:60]}"
+
+
+def rule_r9(prog, res) -> None:
+    """a chunk that is divided among the workers is partitioned: every record is in exactly one piece"""
+    from .. import symx
+
+    sites = []
+    # MPI: the reader rank sends one piece to every other rank and keeps one
+    for fi in prog.find_funcs("scatter_data_chunk"):
+        res.touch(fi)
+        oracle = __import__("yawsa.rules.c06", fromlist=["x"])._designated_rank_oracle(True)
+        for p in symx.explore(prog, fi, oracle=oracle):
+            for ev in p.calls("send"):
+                if ev.expr.args:
+                    sites.append((fi, ev.node, _pieces_of(ev.expr.args[0])))
+            if p.outcome == "return" and p.value is not None and not (isinstance(p.value, ast.Call) and isinstance(p.value.func, ast.Attribute) and p.value.func.attr == "recv"):
+                sites.append((fi, p.node, _pieces_of(p.value)))
+    # multiprocessing: pool.map(task, pieces)
+    for fi in prog.funcs:
+        if fi.variant == "mpi" or not fi.module.name.startswith("yaw.catalog"):
+            continue
+        for c in calls_in(fi):
+            if isinstance(c.func, ast.Attribute) and c.func.attr in ("map", "imap", "imap_unordered", "starmap") and len(c.args) == 2 and any(e.kind == "ipc" and e.op.startswith("pool.") for e in classify_call(prog, fi, c)):
+                hit = False
+                for p in symx.explore(prog, fi, skip_tests=("logger",)):
+                    for ev in p.calls(c.func.attr):
+                        if ev.node is c and not hit:
+                            hit = True
+                            sites.append((fi, c, _pieces_of(ev.expr.args[1])))
+                    if hit:
+                        break
+    seen = set()
+    n = 0
+    for fi, node, pieces in sites:
+        key = (fi.key, unparse(pieces))
+        if key in seen:
+            continue
+        seen.add(key)
+        n += 1
+        res.touch(fi)
+        verdict, why = _tiling_verdict(pieces)
+        if verdict is True:
+            res.ok("C02.R9", res.site(fi, unparse(pieces)[:40]), why)
+        elif verdict is False:
+            res.violation("C02.R9", fi, node, f"the chunk is not partitioned among the workers: {why}; those records are never written to any patch", key_extra=f"chunk-not-partitioned-{fi.qualname}")
+        else:
+            raise AnalysisError(f"C02.R9: cannot decide whether the pieces handed to the workers in {fi.short} partition the chunk ({why})")
+    if n < 2:
+        raise AnalysisError(f"C02.R9: only {n} sites dividing a chunk among workers found, minimum 2 (MPI scatter and process pool)")
+
+
 RULES = [
     ("C02.R1", rule_r1, QUICK),
     ("C02.R2", rule_r2, QUICK),
@@ -634,4 +739,5 @@ RULES = [
     ("C02.R6", rule_r6, QUICK),
     ("C02.R7", rule_r7, QUICK),
     ("C02.R8", rule_r8, QUICK),
+    ("C02.R9", rule_r9, QUICK),
 ]
